@@ -39,6 +39,10 @@ from fractions import Fraction
 import numpy as np
 
 from . import core
+from . import c15_text
+from . import c15_ps
+from . import c15_tree
+from . import c15_ffv
 
 FIXED = [True, True, True, True]
 FLAGS = ["unitary-fields", "filter-zero", "shared-table", "expression"]
@@ -852,9 +856,22 @@ def ff_sim(s):
     return cur, cur != max([coe_size(s["default"])] + list(sizes.values()))
 
 
-def gen_ffcp(rng, k, wmax, names, depth, illegal=False, allow_exp=True):
+def gen_ffcp(rng, k, wmax, names, depth, illegal=False, allow_exp=True, stale_ok=False):
     """FFCircuitProvider: a default circuit and a history of add_configuration / block_circuit_size calls"""
     while True:
+        if stale_ok and wmax >= 2 and rng.random() < 0.6:
+            # a key first given the largest circuit, later a smaller one: the stored maximal size is attained no more
+            big = rng.randint(2, wmax)
+            keys = list(FF_STATES[k])
+            rng.shuffle(keys)
+            ops = [["add", keys[0], gen_coe(rng, big, names, depth, allow_exp)]]
+            for kk in keys[1:rng.randint(1, min(3, len(keys)))]:
+                ops.append(["add", kk, gen_coe(rng, rng.randint(1, big - 1), names, depth, allow_exp)])
+            ops.append(["add", keys[0], gen_coe(rng, rng.randint(1, big - 1), names, depth, allow_exp)])
+            if rng.random() < 0.4:
+                ops.append(["block"])
+            return {"t": "ffcp", "m": k, "offset": 0, "name": rng.choice([None, None, "provider", "FFC", "ff 1"]),
+                    "default": gen_coe(rng, rng.randint(1, big - 1), names, depth, allow_exp), "ops": ops}
         d = rng.randint(1, wmax)
         ops, cur, blocked = [], d, False
         n_adds = rng.choice([0, 1, 1, 2, 2, 3])
@@ -876,8 +893,9 @@ def gen_ffcp(rng, k, wmax, names, depth, illegal=False, allow_exp=True):
         s = {"t": "ffcp", "m": k, "offset": 0, "name": rng.choice([None, None, "provider", "FFC", "ff 1"]),
              "default": gen_coe(rng, d, names, depth, allow_exp), "ops": ops}
         # a key assigned twice, the second time with a smaller circuit, leaves a maximal size that is not written
-        # (Props/C15: FF.replaced_key_loses_max) — boundary outside the generator
-        if not ff_sim(s)[1]:
+        # (Props/C15: FF.replaced_key_loses_max / FF.roundtrip_provider_any_history): the rebuilt provider holds the
+        # largest size present.  Generated only stand-alone (`stale_ok`): the model decides what must come back.
+        if stale_ok or not ff_sim(s)[1]:
             return s
 
 
@@ -909,12 +927,15 @@ def spec_vars(c, out):
     return out
 
 
-def gen_ffc(rng, k, w):
-    """FFConfigurator: a controlled circuit with variables and value tables (sent as 32-bit floats)"""
+def gen_ffc(rng, k, w, wide=False):
+    """FFConfigurator: a controlled circuit with variables and value tables (sent as 32-bit floats).
+    `wide`: arbitrary doubles (Model/C15F32.lean says what comes back); otherwise values in [0, 6.2]"""
     ctrl = gen_ctrl_circuit(rng, w, FF_NAMES)
     vs = sorted(spec_vars(ctrl, set()))
 
     def cfg():
+        if wide:
+            return c15_ffv.gen_ffc_values(rng, vs)
         return {n: rng.choice([0, 1, 0.0, round(rng.uniform(0, 6.2), rng.choice([1, 3, 6])), rng.uniform(0, 6.2)])
                 for n in vs}
     states = rng.sample(FF_STATES[k], rng.randint(0, min(3, len(FF_STATES[k]))))
@@ -922,13 +943,13 @@ def gen_ffc(rng, k, w):
             "default_config": cfg(), "configs": [[st, cfg()] for st in states], "block": rng.random() < 0.3}
 
 
-def gen_ff(rng, k, wmax, names, depth, illegal=False):
+def gen_ff(rng, k, wmax, names, depth, illegal=False, standalone=False):
     """-> (spec, width of the controlled modes)"""
     if rng.random() < 0.62:
-        s = gen_ffcp(rng, k, wmax, names, depth, illegal)
+        s = gen_ffcp(rng, k, wmax, names, depth, illegal, stale_ok=standalone and rng.random() < 0.5)
         return s, ff_sim(s)[0]
     w = rng.randint(1, wmax)
-    return gen_ffc(rng, k, w), w
+    return gen_ffc(rng, k, w, wide=standalone and rng.random() < 0.4), w
 
 
 def place_ffs(rng, s, names, depth, n_ff, free):
@@ -1278,14 +1299,30 @@ def same_ff(x, y):
     if type(x) is not type(y):
         return f"{type(x).__name__} became {type(y).__name__}"
     dx, dy = norm_desc(desc_comp(x)), desc_comp(y)
+    provider = isinstance(x, FFCircuitProvider)
+    stale = False
+    if provider:
+        true_max = max([x.default_circuit.m] + [c.m for c in x._map.values()])
+        stale = x._max_circuit_size != true_max
+        if stale:
+            # the maximal size is not written: the reader computes the largest size present
+            # (Props/C15: FF.roundtrip_provider_any_history) — documented boundary, everything else must survive
+            if y._max_circuit_size != true_max:
+                return f"feed-forward configurator: max {x._max_circuit_size} (largest present {true_max}) became " \
+                       f"{y._max_circuit_size}"
+            dx, dy = dict(dx, max=None), dict(dy, max=None)
     if dx != dy:
         k = first_diff(dx, dy)
         return f"feed-forward configurator: {k} differs" + (f" ({dx[k]} became {dy.get(k)})" if k in
                                                              ("name", "offset", "blocked", "max", "m") else "")
     modes = tuple(range(7, 7 + x.m))
-    if x.config_modes(modes) != y.config_modes(modes):
+    if not stale and x.config_modes(modes) != y.config_modes(modes):
         return "config_modes differ"
-    provider = isinstance(x, FFCircuitProvider)
+    # a table value of 32 or more in modulus moves by more than the text precision in a 32-bit float
+    # (Props/C15: F32.f32_within_text_precision / f32_beyond_text_precision): the configured matrices are compared
+    # only below; the tables themselves are compared as 32-bit floats by `desc_comp` above
+    wide = (not provider) and any(abs(float(v)) >= 32 for t in [x._default_config] + list(x._configs.values())
+                                  for v in t.values())
     if not identity_ok({id(p): p for p in ff_named_params(y, [])}.values()):
         return "one variable name is several Parameter objects after the round trip"
     states = list(x._map if provider else x._configs) + [BasicState([3] * x.m)]
@@ -1301,7 +1338,8 @@ def same_ff(x, y):
                 r = same_coe(cx_, cy_)
             else:       # the values travelled as 32-bit floats: compare the configured matrices within the text precision
                 my = matrix_of(cy_)
-                r = None if mx.shape == my.shape and np.allclose(mx, my, rtol=0, atol=5e-6) else "matrix differs"
+                r = None if mx.shape == my.shape and (wide or np.allclose(mx, my, rtol=0, atol=5e-6)) \
+                    else "matrix differs"
         except Exception as e:
             return f"configure({st}) raises {exc_name(e)} after the round trip"
         if r:
@@ -2009,7 +2047,7 @@ def gen_simple_case(rng, fam=None):
         s["env"] = {"a": rng.choice([None, 0.25])}
     elif fam == "ff":
         names = rng.sample(NAMES, rng.randint(1, 2))
-        s["ff"], _ = gen_ff(rng, rng.choice([1, 1, 2]), 3, names, 1, illegal=True)
+        s["ff"], _ = gen_ff(rng, rng.choice([1, 1, 2]), 3, names, 1, illegal=True, standalone=True)
         s["ff"]["offset"] = rng.randint(-3, 3)
         s["env"] = gen_env(rng, names)      # the variables of a controlled circuit hold no value (boundary, see run)
     else:
@@ -2233,6 +2271,20 @@ def judge_simple(chk, spec, tmpdir, stats=False):
             why, _ = ffcp_model_check(chk, recs[-1], d["t"], y, False)
             if why:
                 return ("broken", "model-vs-code:ffcp", f"ff: model and code disagree on {why}")
+            if x._max_circuit_size != max([x.default_circuit.m] + [c.m for c in x._map.values()]):
+                chk.branch("ffcp-stale-max")
+        else:
+            # the value tables: message = 32-bit float of every value, rebuilt tables = those values (Model/C15F32.lean)
+            # (on a fresh copy of the object: the direct oracle above has given the variables of `x` values)
+            counter = {}
+            res = c15_ffv.judge_ffc(chk.lean, build_simple(spec), pb_of(pb.Component, payload).ff_configurator, y, counter)
+            for k_, n_ in counter.items():
+                chk.count("ffc_values", k_, n_)
+            if res is not None:
+                return res
+            chk.branch("ffc-tables-model")
+            if counter.get("ffc-values-beyond-32"):
+                chk.branch("ffc-values-beyond-precision")
     nums = text_numbers(payload) if fam in ("sv", "svd", "bsd") else []
     for tx in nums[:12]:
         fr = abs(Fraction(tx))
@@ -2276,6 +2328,15 @@ def judge_simple(chk, spec, tmpdir, stats=False):
             return ("broken", "model-vs-code:grid", f"printed number {tx} is not on the model's grid")
         if r["exp"] > 0:
             chk.branch("grid-small")
+    if fam in c15_text.TEXT_FAMS:
+        # the text formats: writer and reader against Model/C15Text.lean, then variants of the text for the readers
+        res = c15_text.judge_text(chk, fam, x, y, payload)
+        if res is not None:
+            return res
+        if stats:
+            res = c15_text.reader_stream(chk, fam, payload, chk.rng, chk.pick(4, 8))
+            if res is not None:
+                return res
     if stats:
         chk.case((fam, json.dumps(spec, sort_keys=True)[:300]), nontrivial=fam not in ("port", "postselect"),
                  sample={"family": fam, "entry": entry})
@@ -2317,6 +2378,88 @@ def check_grid_values(chk, rng, n):
     chk.count("grid", "exact", exact)
     chk.count("grid", "within-one-unit", len(vals) - exact)
     return None
+
+
+# --- post-selection expressions (Model/C15PS.lean) ------------------------------------------------------
+def judge_psx(chk, spec, tmpdir, stats=False):
+    import random
+    from collections import Counter
+    from perceval.serialization import serialize, deserialize
+    st = Counter()
+    res = c15_ps.judge(chk.lean, spec["x"], random.Random(spec["seed"]), serialize, deserialize, fixed=True, stats=st,
+                       n_mut=chk.pick(4, 8) if stats else 0)
+    if stats:
+        for k, v in st.items():
+            if isinstance(v, int):
+                chk.count("postselect", k, v)
+        f = c15_ps.features(spec["x"])
+        chk.branch("ps-model")
+        if not c15_ps.not_last_free(spec["x"]):
+            chk.branch("ps-negation-not-last")
+        if any("not" in str(k) for k in f):
+            chk.branch("ps-negation")
+        if c15_ps.spec_depth(spec["x"]) >= 3:
+            chk.branch("ps-nested")
+        if res is None:
+            chk.case(("psx", json.dumps(spec["x"], sort_keys=True)[:300]), nontrivial=c15_ps.spec_size(spec["x"]) > 1,
+                     sample={"family": "postselect-expression"})
+    return res
+
+
+def shrink_psx(chk, spec, tmpdir, res):
+    def fails(x):
+        r = judge_psx(chk, dict(spec, x=x), tmpdir)
+        return r is not None and r[:2] == res[:2]
+    return dict(spec, x=c15_ps.shrink(spec["x"], fails))
+
+
+# --- dict / list containers (Model/C15Tree.lean) -----------------------------------------------------------
+TREE_LEAF_FAMS = ["det", "port", "herald", "noise", "matrix", "state", "state", "sv", "svd", "bsd", "bsc", "bss",
+                  "postselect", "component"]
+
+
+def gen_tree_leaf(rng):
+    s = gen_simple_case(rng, rng.choice(TREE_LEAF_FAMS))
+    s.pop("entry", None)
+    return s, build_simple
+
+
+def gen_tree_case(rng):
+    depth = rng.choice([0, 1, 2, 2, 3, 3, 4])
+    return {"fam": "tree", "tree": c15_tree.gen_tree(rng, depth, gen_tree_leaf), "entry": c15_tree.gen_entry(rng)}
+
+
+def judge_tree_case(chk, spec, tmpdir, stats=False):
+    info = {}
+    res = c15_tree.judge_tree(chk.lean, spec["tree"], build_simple, same_obj, spec["entry"], tmpdir, info=info)
+    if stats:
+        if "reject" in info:
+            chk.branch("gen-reject")
+            chk.count("gen_reject", "tree: " + str(info["reject"])[:50])
+            return res
+        st = info.get("stats") or {}
+        chk.branch("tree-model")
+        chk.count("tree_entry", c15_tree.entry_name(spec["entry"]))
+        chk.count("tree_depth", str(st.get("depth")))
+        if st.get("obj_keys", 0) > 0:
+            chk.branch("tree-object-key")
+        if (st.get("depth") or 0) >= 3:
+            chk.branch("tree-deep")
+        if isinstance(c15_tree.norm_entry(spec["entry"]).get("compress"), list):
+            chk.branch("tree-compress-list")
+        if c15_tree.norm_entry(spec["entry"]).get("via") == "file":
+            chk.branch("tree-file")
+        if res is None:
+            chk.case(("tree", json.dumps(spec, sort_keys=True, default=str)[:300]), nontrivial=(st.get("depth") or 0) >= 1,
+                     sample={"family": "tree", "entry": c15_tree.entry_name(spec["entry"])})
+    return res
+
+
+def shrink_tree(chk, spec, tmpdir, res):
+    def fails(t):
+        r = judge_tree_case(chk, dict(spec, tree=t), tmpdir)
+        return r is not None and r[:2] == res[:2]
+    return dict(spec, tree=c15_tree.shrink(spec["tree"], fails))
 
 
 # --- malformed stream -------------------------------------------------------------------------------
@@ -2425,6 +2568,10 @@ def handle(chk, spec, tmpdir, stats=True, shrink=True, seen=None):
         res = judge(chk, spec, tmpdir, stats)
     elif fam == "malformed":
         res = judge_malformed(chk, spec, spec["seed"], tmpdir, stats)
+    elif fam == "psx":
+        res = judge_psx(chk, spec, tmpdir, stats)
+    elif fam == "tree":
+        res = judge_tree_case(chk, spec, tmpdir, stats)
     else:
         res = judge_simple(chk, spec, tmpdir, stats)
     if res is None:
@@ -2439,6 +2586,11 @@ def handle(chk, spec, tmpdir, stats=True, shrink=True, seen=None):
         if res2 is not None and res2[0] == res[0]:
             if seen is not None and res2[1] != res[1]:
                 seen[res2[1]] = seen.get(res2[1], 0) + 1
+            res, spec = res2, small
+    if fam in ("psx", "tree") and shrink:
+        small = (shrink_psx if fam == "psx" else shrink_tree)(chk, spec, tmpdir, res)
+        res2 = (judge_psx if fam == "psx" else judge_tree_case)(chk, small, tmpdir)
+        if res2 is not None and res2[:2] == res[:2]:
             res, spec = res2, small
     kind, sig, what = res
     chk.fail(kind, sig, what, {"spec": spec})
@@ -2486,7 +2638,13 @@ def run(chk: core.Check):
                              "ff-standalone", "ff-in-experiment", "ff-nested", "ff-in-container", "ff-negative-offset",
                              "ff-two-in-experiment", "ff-shared-detector", "ff-then-component", "ff-shared-variable",
                              "ffcp-frozen-other-size", "ffcp-add-after-block", "ffcp-replaced-key",
-                             "ffcp-experiment-payload", "ffcp-rejected-add", "ffc-configurator", "ffc-configs"]
+                             "ffcp-experiment-payload", "ffcp-rejected-add", "ffc-configurator", "ffc-configs",
+                             "text-model-state", "text-model-sv", "text-model-svd", "text-model-bsd", "text-model-bsc",
+                             "text-model-bss", "text-model-annotated", "text-model-annotated-sv", "text-number-exponent",
+                             "text-reader-both-accept", "text-reader-both-reject", "text-reader-respelled",
+                             "ps-model", "ps-negation", "ps-negation-not-last", "ps-nested",
+                             "tree-model", "tree-object-key", "tree-deep", "tree-compress-list", "tree-file",
+                             "ffcp-stale-max", "ffc-tables-model", "ffc-values-beyond-precision", "f32-model"]
     chk.lean = core.LeanDriver("C15")
     rng = chk.rng
     pc().random_seed(chk.seed)
@@ -2514,6 +2672,11 @@ def run(chk: core.Check):
             specs.append(gen_simple_case(rng))
         for _ in range(n_ff):
             specs.append(gen_simple_case(rng, "ff"))
+        for _ in range(chk.pick(300, 5000)):
+            specs.append({"fam": "psx", "x": c15_ps.gen_expr(rng, rng.choice([0, 1, 1, 2, 2, 3])),
+                          "seed": rng.randint(0, 10 ** 9)})
+        for _ in range(chk.pick(250, 4000)):
+            specs.append(gen_tree_case(rng))
         for _ in range(n_mal):
             s = gen_circuit_case(rng, 2, m_max)
             s["fam"] = "malformed"
@@ -2526,6 +2689,14 @@ def run(chk: core.Check):
         res = check_grid_values(chk, rng, n_grid)
         if res is not None:
             chk.fail(res[0], res[1], res[2], {"spec": {"fam": "grid"}})
+        counter = {}
+        res = c15_ffv.check_f32(chk.lean, rng, chk.pick(600, 8000), counter)
+        for k_, n_ in counter.items():
+            chk.count("f32", k_, n_)
+        if res is not None:
+            chk.fail(res[0], res[1], res[2], {"spec": {"fam": "f32"}})
+        else:
+            chk.branch("f32-model")
         chk.extra["failures_by_signature"] = seen_sigs
 
 
@@ -2536,6 +2707,10 @@ def replay(chk, data):
     with tempfile.TemporaryDirectory(prefix="c15-") as tmpdir:
         if spec.get("fam") == "grid":
             res = check_grid_values(chk, chk.rng, 400)
+            if res is not None:
+                chk.fail(res[0], res[1], res[2], {"spec": spec})
+        elif spec.get("fam") == "f32":
+            res = c15_ffv.check_f32(chk.lean, chk.rng, 2000)
             if res is not None:
                 chk.fail(res[0], res[1], res[2], {"spec": spec})
         else:
